@@ -230,16 +230,60 @@ Proof.
 Qed.
 
 (* ------------------------------------------------------------------ the theorems *)
-(* character data *)
-Theorem hostile_text_safe_data s :
-  forallb is_xml_char s = true -> mem 13 s = false ->
-  text_value (sax_escape s) = Some s.
+(* character data as XmlEventWriter writes it: escape, then CR as a character reference *)
+Definition esc1t (c : N) : str :=
+  if c =? 38 then e_amp else if c =? 62 then e_gt else if c =? 60 then e_lt else if c =? 13 then e_cr else [c].
+
+Lemma sax_escape_text_cons c s : sax_escape_text (c :: s) = esc1t c ++ sax_escape_text s.
 Proof.
-  intros Hx Hcr. unfold text_value. rewrite sax_escape_flat.
-  rewrite has_cdata_end_needs_gt by (apply mem_flat_map_false, esc1_no_gt).
-  rewrite norm_eol_no_cr.
-  - apply expand_esc1, Hx.
-  - rewrite (mem_flat_map_char 13 esc1 s esc1_cr). exact Hcr.
+  unfold sax_escape_text. rewrite sax_escape_cons, replace_chr_app. f_equal.
+  unfold esc1, esc1t.
+  destruct (c =? 38) eqn:E38; [reflexivity|].
+  destruct (c =? 62) eqn:E62; [reflexivity|].
+  destruct (c =? 60) eqn:E60; [reflexivity|].
+  cbn [replace_chr flat_map app]. destruct (c =? 13); reflexivity.
+Qed.
+Lemma sax_escape_text_flat s : sax_escape_text s = flat_map esc1t s.
+Proof. induction s as [|c s IH]; [reflexivity|]. rewrite sax_escape_text_cons, IH. reflexivity. Qed.
+
+Lemma esc1t_no_gt x : mem 62 (esc1t x) = false.
+Proof.
+  unfold esc1t. destruct (x =? 38); [reflexivity|].
+  destruct (x =? 62) eqn:E62; [reflexivity|]. destruct (x =? 60); [reflexivity|]. destruct (x =? 13); [reflexivity|].
+  unfold mem; cbn [existsb]. rewrite N.eqb_sym, E62. reflexivity.
+Qed.
+Lemma esc1t_no_cr x : mem 13 (esc1t x) = false.
+Proof.
+  unfold esc1t. destruct (x =? 38); [reflexivity|]. destruct (x =? 62); [reflexivity|].
+  destruct (x =? 60); [reflexivity|]. destruct (x =? 13) eqn:E13; [reflexivity|].
+  unfold mem; cbn [existsb]. rewrite N.eqb_sym, E13. reflexivity.
+Qed.
+Lemma expand_esc1t s :
+  forallb is_xml_char s = true -> expand (fun c => c) None (flat_map esc1t s) = Some s.
+Proof.
+  induction s as [|c s IH]; intros H; [reflexivity|].
+  cbn [forallb] in H. apply andb_true_iff in H as [Hc Hs].
+  change (flat_map esc1t (c :: s)) with (esc1t c ++ flat_map esc1t s). unfold esc1t at 1.
+  destruct (c =? 38) eqn:E38.
+  { apply N.eqb_eq in E38. subst. rewrite expand_amp, IH by exact Hs. reflexivity. }
+  destruct (c =? 62) eqn:E62.
+  { apply N.eqb_eq in E62. subst. rewrite expand_gt, IH by exact Hs. reflexivity. }
+  destruct (c =? 60) eqn:E60.
+  { apply N.eqb_eq in E60. subst. rewrite expand_lt, IH by exact Hs. reflexivity. }
+  destruct (c =? 13) eqn:E13.
+  { apply N.eqb_eq in E13. subst. rewrite expand_cr, IH by exact Hs. reflexivity. }
+  cbn [app]. rewrite expand_plain by assumption. rewrite IH by exact Hs. reflexivity.
+Qed.
+
+(* character data: no guard beyond XML Char (the CR guard went away with the repair of
+   XmlEventWriter) *)
+Theorem hostile_text_safe_data s :
+  forallb is_xml_char s = true -> text_value (sax_escape_text s) = Some s.
+Proof.
+  intros Hx. unfold text_value. rewrite sax_escape_text_flat.
+  rewrite has_cdata_end_needs_gt by (apply mem_flat_map_false, esc1t_no_gt).
+  rewrite norm_eol_no_cr by (apply mem_flat_map_false, esc1t_no_cr).
+  apply expand_esc1t, Hx.
 Qed.
 
 Lemma attr_value_wrap q inner :
@@ -276,7 +320,7 @@ Proof.
     apply expand_esc2, Hx.
 Qed.
 
-(* the CR guard is necessary: the faithful model loses it *)
-Lemma hostile_text_cr_refuted :
+(* what the repair removed: XMLGenerator's own escape() loses a carriage return *)
+Lemma stdlib_escape_loses_cr :
   exists s, forallb is_xml_char s = true /\ text_value (sax_escape s) <> Some s.
 Proof. exists [97; 13; 98]. split; [reflexivity|]. vm_compute. discriminate. Qed.
